@@ -107,10 +107,18 @@ int main(int argc, char ** argv) {
             o << nbel;
             for (size_t k = 0; k < nbel; ++k) {
                 POMDP::Belief b(t.S); for (size_t s = 0; s < t.S; ++s) b[s] = c.nextDouble();
-                if (H == 0) { o << "T" << 0 << 0; continue; }
-                auto [a, id] = pol.sampleAction(b, H);
-                o << "T" << a << id;
-                dumpTree(o, pol, id, H - 1, t.O);
+                if (H == 0) { o << "T" << 0 << 0; }
+                else {
+                    auto [a, id] = pol.sampleAction(b, H);
+                    o << "T" << a << id;
+                    dumpTree(o, pol, id, H - 1, t.O);
+                }
+                // the rest of the public interface: P <getH> <getO> <sampleAction(b)> <hl> <a,id at hl> then per action the three probabilities
+                const unsigned hl = H / 2;
+                auto [al, idl] = pol.sampleAction(b, hl);
+                o << "P" << pol.getH() << pol.getO() << pol.sampleAction(b) << hl << al << idl;
+                for (size_t x = 0; x < t.A; ++x)
+                    o << pol.getActionProbability(b, x) << pol.getActionProbability(b, x, H) << pol.getActionProbability(b, x, hl);
             }
         } else if (kind == "csbb") {   // csbb <pomdp> <nw> <w vectors…> <nb> <beliefs…>
             Tables t = readPomdp(c);
